@@ -41,6 +41,71 @@ func mkFuzzAssembly(rnd *rand.Rand, maxBytes int) string {
 	return b.String()
 }
 
+var (
+	mkFuzzNames = []string{"a", "b", "nomarkup", "select", "plural", "ordinal", "character", "é", "x1", "_"}
+	mkFuzzProps = []string{"value=1", "value=2", "value=11", "value=a", "value=1.5", "value=true", "value=\"a b\"", "value=", "value",
+		"a=b", "a=1", "1=x", "2=\"%\"", "one=x", "one=\"% y\"", "two=z", "few=w", "other=\"%s\"", "other=", "=", "=1",
+		"p=\"q", "p=\"q\\\"r\"", "p=1.05", "p=1.", "p=.5", "name=x", "contents=c", "trimwhitespace=false", "trimwhitespace=true",
+		"trimwhitespace=1", "a=b=c", "é=中"}
+)
+
+// mkFuzzMarker assembles one marker-shaped fragment: [ name props... /? ] with pieces that
+// may be missing or malformed.
+func mkFuzzMarker(rnd *rand.Rand) string {
+	var b strings.Builder
+	sp := func() {
+		if rnd.Intn(4) == 0 {
+			b.WriteString([]string{" ", "\t", "  ", "\u00a0"}[rnd.Intn(4)])
+		}
+	}
+	b.WriteString("[")
+	sp()
+	if rnd.Intn(6) == 0 {
+		b.WriteString("/")
+		sp()
+	}
+	if rnd.Intn(12) != 0 {
+		b.WriteString(mkFuzzNames[rnd.Intn(len(mkFuzzNames))])
+	}
+	if rnd.Intn(8) == 0 {
+		b.WriteString("=" + []string{"1", "x", "\"s\"", "1.5", ""}[rnd.Intn(5)])
+	}
+	for k := []int{0, 0, 1, 1, 2, 3, 5}[rnd.Intn(7)]; k > 0; k-- {
+		b.WriteString(" ")
+		b.WriteString(mkFuzzProps[rnd.Intn(len(mkFuzzProps))])
+	}
+	sp()
+	if rnd.Intn(3) == 0 {
+		b.WriteString("/")
+		sp()
+	}
+	if rnd.Intn(10) != 0 {
+		b.WriteString("]")
+	}
+	return b.String()
+}
+
+// mkFuzzMarkers: text, marker-shaped fragments and close tags.
+func mkFuzzMarkers(rnd *rand.Rand, maxBytes int) string {
+	var b strings.Builder
+	for n := 1 + rnd.Intn(5); n > 0; n-- {
+		var t string
+		switch rnd.Intn(5) {
+		case 0:
+			t = []string{"x", " ", "é ", "Name: ", " y ", "\\[", ":", "\t", "😀"}[rnd.Intn(9)]
+		case 1:
+			t = []string{"[/]", "[/a]", "[/b]", "[/nomarkup]", "[/select]", "[ / ]", "[/é]"}[rnd.Intn(7)]
+		default:
+			t = mkFuzzMarker(rnd)
+		}
+		if b.Len()+len(t) > maxBytes {
+			break
+		}
+		b.WriteString(t)
+	}
+	return b.String()
+}
+
 func mkPickByte(rnd *rand.Rand, s string) byte { return s[rnd.Intn(len(s))] }
 
 func mkFuzzBytes(rnd *rand.Rand, maxBytes int) string {
@@ -177,9 +242,11 @@ func markupFuzz(m map[string]string) error {
 			}
 		}
 		for i := 0; i < n; i++ {
-			switch i % 4 {
+			switch i % 5 {
 			case 0, 1:
 				err = emit("assembly", mkFuzzAssembly(rnd, maxBytes))
+			case 4:
+				err = emit("markers", mkFuzzMarkers(rnd, maxBytes))
 			case 2:
 				err = emit("mutated", mkFuzzMutate(rnd, mkLayout{rnd: rnd}.line(g.line(8, false)), 2*maxBytes))
 			default:
